@@ -926,6 +926,44 @@ theorem closure_delete_table (g : RefG) (sheet rid table : Str) (h : closedG g)
   · intro u hu
     exact hnouse u (List.mem_of_mem_erase hu)
 
+/-- `closure_delete_pivot`: DeletePivotTable deletes no part (regenerated fact); it removes the
+worksheet relationship to the pivot table part — an implicit relationship, no `r:id` in the
+worksheet names it — and, when the pivot table was the last user of its cache, the workbook
+relationship to the cache together with the `<pivotCache r:id>` entry (id used once). The
+closure holds afterwards, whether or not the cache is shared. -/
+theorem closure_delete_pivot (g : RefG) (sheet ridS wb ridW : Str) (lastUser : Bool) (h : closedG g)
+    (himplicit : (sheet, ridS) ∉ g.uses)
+    (honce : lastUser = true → (wb, ridW) ∉ g.uses.erase (wb, ridW)) :
+    Facts.C05.deletePivotKeepsParts = true ∧ closedG (g.deletePivotTable sheet ridS wb ridW lastUser) := by
+  refine ⟨by decide, ?_⟩
+  unfold RefG.deletePivotTable
+  dsimp only
+  cases lastUser with
+  | false => exact closed_dropRel g sheet ridS h himplicit
+  | true =>
+    -- relationship first, entry second in the code; the two steps touch different fields
+    have e : (g.dropRel wb ridW).dropUse wb ridW = (g.dropUse wb ridW).dropRel wb ridW := rfl
+    have a := closed_dropUse g wb ridW h
+    have b := closed_dropRel (g.dropUse wb ridW) wb ridW a (honce rfl)
+    simp only [if_true]
+    rw [e]
+    exact closed_dropRel _ sheet ridS b (fun hm => himplicit (List.mem_of_mem_erase hm))
+
+/-- non-vacuity of `closure_delete_pivot`: a workbook with one pivot table whose cache has no other
+user satisfies every hypothesis, and afterwards the workbook no longer points to the cache. -/
+theorem closure_delete_pivot_example :
+    let g : RefG := ⟨[sl "wb", sl "sheet1", sl "pivotTable1", sl "cache1"],
+      [(sl "wb", sl "rId5", sl "cache1"), (sl "sheet1", sl "rId1", sl "pivotTable1"),
+       (sl "pivotTable1", sl "rId1", sl "cache1")], [(sl "wb", sl "rId5")]⟩
+    closedG g ∧ (sl "sheet1", sl "rId1") ∉ g.uses ∧ (sl "wb", sl "rId5") ∉ g.uses.erase (sl "wb", sl "rId5") ∧
+      (g.deletePivotTable (sl "sheet1") (sl "rId1") (sl "wb") (sl "rId5") true).rels =
+        [(sl "pivotTable1", sl "rId1", sl "cache1")] := by
+  refine ⟨⟨by decide, ?_⟩, by decide, by decide, by decide⟩
+  intro u hu
+  simp only [List.mem_singleton] at hu
+  subst hu
+  exact ⟨by decide, sl "cache1", by decide⟩
+
 /-! ## element order inside worksheets and chart sheets -/
 
 theorem stepOk_of_ltB {schema : List String} {a b : String} (h : ltB schema a b = true) : stepOk schema a b = true := by
